@@ -198,9 +198,9 @@ func TestVerifC16Ring(t *testing.T) {
 
 	maxDepth := -1 // fixed point
 	if size > 64 {
-		maxDepth = 4
+		maxDepth = 8
 		if run.Thorough() {
-			maxDepth = 5
+			maxDepth = 48
 		}
 	}
 	ops := vfRingOps(size)
